@@ -1,5 +1,6 @@
 import Ovsdb.Codec
 import Ovsdb.Model.Diff
+import Ovsdb.CodecCache
 /-
   Line-protocol driver: one JSON request per line on stdin, one JSON answer per
   line on stdout.  {"fn": name, ...inputs} -> {"ok": result} | {"error": text}
@@ -8,6 +9,31 @@ open Lean Ovsdb
 
 def resPair (r : Option Value × Bool) : Json :=
   Json.mkObj [("v", optToJson valueToJson r.1), ("changed", .bool r.2)]
+
+/-- apply a history of batches to an empty cache; after each batch report the
+    index contents, the rows and the answers to the lookup probes -/
+def cacheHistory (j : Json) : P Json := do
+  let specs ← jList specOfJson (← jField j "specs")
+  let batches ← jArr (← jField j "batches")
+  let mut c := Cache.empty specs
+  let mut out : Array Json := #[]
+  for b in batches do
+    let ops ← jList rowOpOfJson (← jField b "ops")
+    match c.applyAll ops with
+    | .error e =>
+      out := out.push (Json.mkObj [("err", .str (cerrToString e))])
+      return Json.mkObj [("steps", .arr out)]
+    | .ok c' =>
+      c := c'
+      let probes ← jFieldD b "probes" jArr []
+      let mut answers : Array Json := #[]
+      for p in probes do
+        let u ← jStr (← jField p "uuid")
+        let row ← rowOfJson (← jField p "row")
+        let uc ← jBool (← jField p "useClient")
+        answers := answers.push (listToJson Json.str (c.rowsByModel u row uc))
+      out := out.push (Json.mkObj [("err", .null), ("cache", cacheToJson c), ("probes", .arr answers)])
+  return Json.mkObj [("steps", .arr out)]
 
 def dispatch (fn : String) (j : Json) : P Json := do
   match fn with
@@ -24,6 +50,7 @@ def dispatch (fn : String) (j : Json) : P Json := do
     let a ← optValueOfJson (← jField j "a")
     let b ← optValueOfJson (← jField j "b")
     return resPair (mergeDifference o a b)
+  | "cacheHistory" => cacheHistory j
   | _ => throw s!"unknown fn {fn}"
 
 def handle (line : String) : String :=
